@@ -144,6 +144,36 @@ def fn_verus_name(rec):
 
 
 def run_verus(repo_src, tag, rlimit=None, threads=16):
+    """Run extraction + Verus; when Verus REJECTS the file (unsupported construct, type error) because
+    of text inside contracted repository functions, those functions are degraded to contract-only
+    (not verified, flagged) and the rest of the file is verified again - one unverifiable function
+    must not make every property undecided."""
+    force = {}
+    res = None
+    for attempt in range(4):
+        res = _run_verus_once(repo_src, tag, rlimit, threads, force)
+        if res.status != "undecided" or not res.compile_errors:
+            break
+        new = {}
+        for d in res.compile_errors:
+            if d.get("kind") != "compile":
+                continue
+            r = d.get("fn")
+            if r is None:
+                new = None
+                break
+            if r.get("twin_of"):
+                f_, c_, n_ = r["twin_of"].split("|", 2)
+            else:
+                f_, c_, n_ = r["file"], r["container"], r["name"]
+            new[(f_, c_, n_)] = d["msg"][:160]
+        if not new or all(k in force for k in new):
+            break
+        force.update(new)
+    return res
+
+
+def _run_verus_once(repo_src, tag, rlimit=None, threads=16, force_degrade=None):
     res = VerusResult()
     os.makedirs(GEN_DIR, exist_ok=True)
     out = os.path.join(GEN_DIR, "toodee_v_%s.rs" % tag)
@@ -154,7 +184,7 @@ def run_verus(repo_src, tag, rlimit=None, threads=16):
     out = os.path.join(work, "toodee_v.rs")
     t0 = time.time()
     try:
-        g, meta = vx.generate(TEMPLATE, repo_src, out)
+        g, meta = vx.generate(TEMPLATE, repo_src, out, force_degrade=force_degrade)
     except vx.ExtractError as e:
         res.status = "undecided"
         res.undecided_reason = "extract: %s" % e
@@ -391,6 +421,7 @@ def main():
     violations = []     # dicts: obligation, msg, detail, fn
     assumed_fns = []
     lost_fail = []      # failed obligations in functions whose proof-hint anchors were lost
+    unverifiable = []   # contracted functions the extractor/verifier could not take (contract-only this run)
     undecided = []
     known, fixed = load_known()
     functions = []
@@ -430,7 +461,10 @@ def main():
             if r.get("sig_only"):
                 continue
             if r.get("extract_error"):
-                undecided.append("%s|%s|%s: %s (function emitted with its contract only; not verified)" % (r["file"], r["container"], r["name"], r["extract_error"]))
+                unverifiable.append({"obligation": "unverifiable :: %s|%s|%s :: %s" % (r["file"], r["container"], r["name"], r["extract_error"][:120]),
+                                     "fn": "%s|%s|%s" % (r["file"], r["container"], r["name"]),
+                                     "msg": "the edited function is outside what the extractor/verifier accepts (%s): not verified" % r["extract_error"][:200],
+                                     "clause": "", "origin": [r["file"], r["line"]], "rendered": r["extract_error"]})
                 continue
             if r.get("discharged_by_twin"):
                 # in-trait copy of a default method: its contract is discharged by the free twin (R16)
@@ -497,7 +531,10 @@ def main():
 
     # ---- syntactic side conditions for code behind macros (C18)
     syn_problems = []
-    if pm.get("syntactic") == "serde":
+    syn_kinds = pm.get("syntactic") or []
+    if isinstance(syn_kinds, str):
+        syn_kinds = [syn_kinds]
+    if "serde" in syn_kinds:
         import serde_syntax
         try:
             syn_problems = serde_syntax.check(repo_src)
@@ -507,7 +544,7 @@ def main():
             lost_fail.append({"obligation": "syntactic :: serde :: %s" % sp[:80], "fn": "serde derive / view serialisers", "msg": "assumed serialised form no longer justified",
                               "clause": sp, "origin": None, "rendered": sp})
 
-    if pm.get("syntactic") == "sort":
+    if "sort" in syn_kinds:
         import sort_syntax
         try:
             for sp in sort_syntax.check(repo_src):
@@ -518,7 +555,16 @@ def main():
         except Exception as e:
             undecided.append("sort syntactic check could not run: %s" % e)
 
-    if pm.get("syntactic") == "flatten":
+    if "derive" in syn_kinds:
+        import derive_syntax
+        try:
+            for sp in derive_syntax.check(repo_src):
+                lost_fail.append({"obligation": "syntactic :: derive :: %s" % sp[:80], "fn": "derive(Clone, Hash, Eq, PartialEq) on TooDee / views", "msg": "equality / hash / clone no longer the derived field-wise ones",
+                                  "clause": sp, "origin": None, "rendered": sp})
+        except Exception as e:
+            undecided.append("derive syntactic check could not run: %s" % e)
+
+    if "flatten" in syn_kinds:
         import flatten_syntax
         try:
             for sp in flatten_syntax.check(repo_src):
@@ -561,7 +607,7 @@ def main():
     os.makedirs(REPLAY_DIR, exist_ok=True)
     viol_lines = []
     found = None
-    if real or lost_fail:
+    if real or lost_fail or unverifiable:
         import replay_search
         try:
             found = replay_search.search(REPO, pid)
@@ -574,6 +620,13 @@ def main():
         else:
             for v in lost_fail:
                 undecided.append("obligation failed in %s but a proof-hint anchor was lost in that function (the edit changed the anchored statement) and no failing input was found within the replay bounds; cannot separate proof brittleness from a defect: %s" % (v["fn"], v["msg"]))
+    if unverifiable:
+        if found and found.get("found") and found.get("confirmed"):
+            # not verifiable AND a concrete input of this property's families fails on the real code
+            real += unverifiable
+        else:
+            for v in unverifiable:
+                undecided.append("%s: %s; no failing input was found within the replay bounds" % (v["fn"], v["msg"]))
     for v in real:
         h = hashlib.sha256(v["obligation"].encode()).hexdigest()[:10]
         path = os.path.join(REPLAY_DIR, "%s-%s.json" % (pid, h))
